@@ -11,7 +11,7 @@
 (* list with data-dependent positions and thousands of elements (the       *)
 (* length list of a sparse codebook) is folded iteratively.                *)
 (***************************************************************************)
-EXTENDS Setup, Functions, SequencesExt
+EXTENDS Setup, Functions, SequencesExt, TLC
 
 BitsOf(bytes) == [i \in 1..(8 * Len(bytes)) |-> (bytes[((i - 1) \div 8) + 1] \div Pow2((i - 1) % 8)) % 2]
 Bit(b, i) == IF i + 1 <= Len(b) THEN b[i + 1] ELSE 0                                   \* 0-based; zeros behind the end (the end is checked once, at the end)
@@ -127,11 +127,11 @@ ReadList(b, pos, kind, n, ch) == IF n = 0 THEN [ok |-> TRUE, pos |-> pos, v |-> 
 IsVorbis(bytes, type) == Len(bytes) >= 7 /\ bytes[1] = type /\ SubSeq(bytes, 2, 7) = Vorbis
 ReadId(bytes) ==
   IF ~IsVorbis(bytes, 1) \/ Len(bytes) # 30 THEN [ok |-> FALSE]
-  ELSE LET b == BitsOf(bytes) IN
+  ELSE LET b == TLCEval(BitsOf(bytes)) IN
        [ok |-> RB32(b, 56) = 0 /\ Bit(b, 232) = 1, ch |-> RB(b, 88, 8), rate |-> RB32(b, 96), brmax |-> RB32(b, 128), brnom |-> RB32(b, 160), brmin |-> RB32(b, 192), e0 |-> RB(b, 224, 4), e1 |-> RB(b, 228, 4)]
 ReadSetup(bytes, id) ==
   IF ~IsVorbis(bytes, 5) THEN [ok |-> FALSE]
-  ELSE LET b == BitsOf(bytes)
+  ELSE LET b == TLCEval(BitsOf(bytes))               \* (TLCEval: evaluated once; a LET value that is used inside folds would otherwise be derived again at every use)
            bk == ReadList(b, 64, 1, RB(b, 56, 8) + 1, id.ch) IN
        IF ~bk.ok THEN [ok |-> FALSE]
        ELSE LET nt == RB(b, bk.pos, 6) + 1  pt == bk.pos + 6 IN
